@@ -1242,6 +1242,22 @@ class G:
                 Decl(['典'], Dict([(Str(k), val()) for k in k0]))]
         ln = {'列': n0}
         ks = {'典': list(k0)}
+        if rng.random() < 0.3:
+            # 包含 / 寻找 compare whole values: a stored dictionary with FEWER (or more) keys than the one looked for is another
+            # dictionary, the order of keys does not matter, nested values count
+            def dlit():
+                kk = rng.sample(['a', 'b', 'c'], rng.randint(0, 3))
+                return Dict([(Var(k), rng.choice([Num('1'), Num('2'), Arr([Num('1')]), Dict([(Var('a'), Num('1'))])])) for k in kk])
+            stored = [dlit() for _ in range(rng.randint(2, 4))]
+            body.append(Decl(['群'], Arr(stored)))
+            probes = [dlit() for _ in range(2)]
+            base = rng.choice(stored)
+            if base.kvs:
+                probes.append(Dict(base.kvs + [(Var('z'), Num('9'))]))            # a superset of a stored one
+                probes.append(Dict(base.kvs[:-1]))                               # a subset
+                probes.append(Dict(list(reversed(base.kvs))))                    # the same content in another order
+            for pr in probes:
+                body.append(ExprS(Call('显示', [MCall(Var('群'), [('寻找', [pr])]), MCall(Var('群'), [('包含', [pr])])])))
 
         def observe():
             out = []
